@@ -1,0 +1,159 @@
+//go:build verif
+
+// Contracts for package action/network_delegation (C12, C02, C03, C04).
+// Comment-only file, read by /verif/govc.
+//
+// Ledgers (defined in data/network_delegation, data/balance):
+//   bal(ctx.Balances)[balKey(a,"OLT")]            balance of address a
+//   ndActive(ctx.NetwkDelegators.Deleg, a)        active network delegation of a
+//   ndPend(ctx.NetwkDelegators.Deleg, h, a)       undelegated amount of a that matures at height h
+//   ndRew(ctx.NetwkDelegators.Rewards, a)         accrued reward balance of a
+//   ndRewPend(ctx.NetwkDelegators.Rewards, h, a)  withdrawn reward of a that matures at height h
+//   ndActTotal / ndPendTotal / ndRPendTotal       ghost running totals of the three record families
+
+package network_delegation
+
+// balance key of the delegation pool
+//@ ghost func ndPoolKey() string = balKey(bytes(ndPoolAddr()), "OLT")
+
+// ================================================================ delegate (add_network_delegation.go)
+
+// the decoded message (same uninterpreted decoding in Validate and in the body)
+//@ ghost func mDeleg(data bytes) AddNetworkDelegation = unm(data, "AddNetworkDelegation")
+
+//@ func (addNetworkDelegationTx).Validate
+//@   implements action.Tx
+//@   ensures result0 ==> len(tx.Signatures) == 1 && sigOK(rawBytesOf(tx.RawTx), mDeleg(tx.Data).DelegationAddress, tx.Signatures[0])   // C04.validate
+//@   exports len(sigs) == 1                                                                                     // C04.validated-facts
+//@   exports raw.Fee.Price.Currency == ctx.FeePool.feeOpt.FeeCurrency.Name && raw.Fee.Price.Value >= 0          // C04.validated-facts
+
+//@ func (addNetworkDelegationTx).ProcessCheck
+//@   implements action.Tx
+//@ func (addNetworkDelegationTx).ProcessDeliver
+//@   implements action.Tx
+//@ func (addNetworkDelegationTx).ProcessFee
+//@   implements action.Tx
+
+// d = delegator, a = amount.  (The body itself checks the coin: valid, OLT; Validate establishes nothing about it.)
+//@ func runNetworkDelegate
+//@   requires ctxOK(ctx)                                                                                        // C18.ctx
+//@   assumes ctx.NetwkDelegators.Deleg != nil && ctx.NetwkDelegators.Rewards != nil                             // A-CTX the master store always holds its two stores (NewMasterStore); to be moved into ctxOK
+//@   ensures result0 ==> mDeleg(tx.Data).Amount.Value >= 0 && mDeleg(tx.Data).Amount.Currency == "OLT"   // C02.sign
+//@   ensures result0 && balKey(mDeleg(tx.Data).DelegationAddress, "OLT") != ndPoolKey() ==> bal(ctx.Balances)[balKey(mDeleg(tx.Data).DelegationAddress, "OLT")] == old(bal(ctx.Balances))[balKey(mDeleg(tx.Data).DelegationAddress, "OLT")] - mDeleg(tx.Data).Amount.Value   // C02.delta-delegator
+//@   ensures result0 && balKey(mDeleg(tx.Data).DelegationAddress, "OLT") != ndPoolKey() ==> bal(ctx.Balances)[ndPoolKey()] == old(bal(ctx.Balances))[ndPoolKey()] + mDeleg(tx.Data).Amount.Value   // C12.delta-pool
+//@   ensures result0 ==> old(bal(ctx.Balances))[balKey(mDeleg(tx.Data).DelegationAddress, "OLT")] >= mDeleg(tx.Data).Amount.Value   // C02.non-negative
+//@   ensures result0 ==> forall c string :: balTotal(ctx.Balances)[c] == old(balTotal(ctx.Balances))[c]       // C02.conserve
+//@   ensures result0 ==> forall k string :: bal(ctx.Balances)[k] < old(bal(ctx.Balances))[k] ==> k == balKey(mDeleg(tx.Data).DelegationAddress, "OLT")   // C03.only-signer-debited
+// the handler drops the error of the read of the current active record (`currentDelegation, _ := ...Get`):
+// the delta of the active record is proved for a readable record and claimed unconditionally
+//@   ensures result0 && old(ndOK(ctx.NetwkDelegators.Deleg)[ndActKey(ctx.NetwkDelegators.Deleg, mDeleg(tx.Data).DelegationAddress)]) ==> ndActive(ctx.NetwkDelegators.Deleg, mDeleg(tx.Data).DelegationAddress) == old(ndActive(ctx.NetwkDelegators.Deleg, mDeleg(tx.Data).DelegationAddress)) + mDeleg(tx.Data).Amount.Value   // C12.delta-active
+//@   ensures result0 && old(ndOK(ctx.NetwkDelegators.Deleg)[ndActKey(ctx.NetwkDelegators.Deleg, mDeleg(tx.Data).DelegationAddress)]) ==> ndActTotal(ctx.NetwkDelegators.Deleg) == old(ndActTotal(ctx.NetwkDelegators.Deleg)) + mDeleg(tx.Data).Amount.Value   // C12.delta-active-total
+//@   ensures result0 && old(ndOK(ctx.NetwkDelegators.Deleg)[ndActKey(ctx.NetwkDelegators.Deleg, mDeleg(tx.Data).DelegationAddress)]) && balKey(mDeleg(tx.Data).DelegationAddress, "OLT") != ndPoolKey() ==> bal(ctx.Balances)[ndPoolKey()] - ndActTotal(ctx.NetwkDelegators.Deleg) == old(bal(ctx.Balances))[ndPoolKey()] - old(ndActTotal(ctx.NetwkDelegators.Deleg))   // C12.pool-covers-active
+//@   claims result0 ==> ndActive(ctx.NetwkDelegators.Deleg, mDeleg(tx.Data).DelegationAddress) == old(ndActive(ctx.NetwkDelegators.Deleg, mDeleg(tx.Data).DelegationAddress)) + mDeleg(tx.Data).Amount.Value   // C12.delta-active-read-error-dropped
+//@   ensures result0 && old(ndOK(ctx.NetwkDelegators.Deleg)[ndActKey(ctx.NetwkDelegators.Deleg, mDeleg(tx.Data).DelegationAddress)]) ==> forall k string :: ndRaw(ctx.NetwkDelegators.Deleg)[k] >= old(ndRaw(ctx.NetwkDelegators.Deleg))[k]   // C03.no-delegation-record-debited
+//@   ensures ndPendTotal(ctx.NetwkDelegators.Deleg) == old(ndPendTotal(ctx.NetwkDelegators.Deleg)) && ndRRaw(ctx.NetwkDelegators.Rewards) == old(ndRRaw(ctx.NetwkDelegators.Rewards)) && ndRPendTotal(ctx.NetwkDelegators.Rewards) == old(ndRPendTotal(ctx.NetwkDelegators.Rewards))   // C03.untouched
+
+// ================================================================ undelegate (network_undelegate.go)
+
+//@ ghost func mUndel(data bytes) Undelegate = unm(data, "Undelegate")
+
+// Validate checks signature, fee and address length; the body itself checks the amount (valid OLT coin,
+// repair cd48538), so no validated fact about the amount is needed.
+//@ func (undelegateTx).Validate
+//@   implements action.Tx
+//@   ensures result0 ==> len(tx.Signatures) == 1 && sigOK(rawBytesOf(tx.RawTx), mUndel(tx.Data).Delegator, tx.Signatures[0])   // C04.validate
+//@   exports len(sigs) == 1                                                                                     // C04.validated-facts
+//@   exports raw.Fee.Price.Currency == ctx.FeePool.feeOpt.FeeCurrency.Name && raw.Fee.Price.Value >= 0          // C04.validated-facts
+
+//@ func (undelegateTx).ProcessCheck
+//@   implements action.Tx
+//@ func (undelegateTx).ProcessDeliver
+//@   implements action.Tx
+//@ func (undelegateTx).ProcessFee
+//@   implements action.Tx
+
+//@ func runUndelegate
+//@   requires ctxOK(ctx)                                                                                        // C18.ctx
+//@   assumes ctx.NetwkDelegators.Deleg != nil && ctx.NetwkDelegators.Rewards != nil                             // A-CTX the master store always holds its two stores (NewMasterStore); to be moved into ctxOK
+//@   ensures result0 ==> mUndel(tx.Data).Amount.Value >= 0 && mUndel(tx.Data).Amount.Currency == "OLT"           // C02.sign
+//@   ensures result0 ==> ndActive(ctx.NetwkDelegators.Deleg, mUndel(tx.Data).Delegator) == old(ndActive(ctx.NetwkDelegators.Deleg, mUndel(tx.Data).Delegator)) - mUndel(tx.Data).Amount.Value   // C12.delta-active
+//@   ensures result0 ==> old(ndActive(ctx.NetwkDelegators.Deleg, mUndel(tx.Data).Delegator)) >= mUndel(tx.Data).Amount.Value   // C12.within-active
+//@   ensures result0 ==> ndActTotal(ctx.NetwkDelegators.Deleg) == old(ndActTotal(ctx.NetwkDelegators.Deleg)) - mUndel(tx.Data).Amount.Value   // C12.delta-active-total
+//@   ensures result0 ==> ndPend(ctx.NetwkDelegators.Deleg, wrap64(ctx.Header.Height + govNdMaturity(ctx.GovernanceStore)), mUndel(tx.Data).Delegator) == old(ndPend(ctx.NetwkDelegators.Deleg, wrap64(ctx.Header.Height + govNdMaturity(ctx.GovernanceStore)), mUndel(tx.Data).Delegator)) + mUndel(tx.Data).Amount.Value   // C12.pending-at-maturity
+//@   ensures result0 ==> ndPendTotal(ctx.NetwkDelegators.Deleg) == old(ndPendTotal(ctx.NetwkDelegators.Deleg)) + mUndel(tx.Data).Amount.Value   // C12.delta-pending-total
+//@   ensures result0 ==> bal(ctx.Balances)[ndPoolKey()] == old(bal(ctx.Balances))[ndPoolKey()] - mUndel(tx.Data).Amount.Value && old(bal(ctx.Balances))[ndPoolKey()] >= mUndel(tx.Data).Amount.Value   // C12.delta-pool
+//@   ensures result0 ==> bal(ctx.Balances)[ndPoolKey()] - ndActTotal(ctx.NetwkDelegators.Deleg) == old(bal(ctx.Balances))[ndPoolKey()] - old(ndActTotal(ctx.NetwkDelegators.Deleg))   // C12.pool-covers-active
+//@   ensures result0 ==> balTotal(ctx.Balances)["OLT"] + ndPendTotal(ctx.NetwkDelegators.Deleg) == old(balTotal(ctx.Balances))["OLT"] + old(ndPendTotal(ctx.NetwkDelegators.Deleg))   // C02.conserve
+//@   ensures result0 ==> forall c string :: c != "OLT" ==> balTotal(ctx.Balances)[c] == old(balTotal(ctx.Balances))[c]   // C02.conserve
+//@   ensures result0 ==> forall k string :: bal(ctx.Balances)[k] < old(bal(ctx.Balances))[k] ==> k == ndPoolKey()   // C03.only-pool-debited
+//@   ensures result0 ==> forall k string :: ndRaw(ctx.NetwkDelegators.Deleg)[k] < old(ndRaw(ctx.NetwkDelegators.Deleg))[k] ==> k == ndActKey(ctx.NetwkDelegators.Deleg, mUndel(tx.Data).Delegator)   // C03.only-signer-debited
+//@   ensures ndRRaw(ctx.NetwkDelegators.Rewards) == old(ndRRaw(ctx.NetwkDelegators.Rewards)) && ndRPendTotal(ctx.NetwkDelegators.Rewards) == old(ndRPendTotal(ctx.NetwkDelegators.Rewards))   // C03.untouched
+
+// ================================================================ withdraw rewards (withdraw_rewards.go)
+
+//@ ghost func mWdr(data bytes) Withdraw = unm(data, "Withdraw")
+
+// Validate additionally establishes that the amount is denominated in the registered OLT currency (exported
+// to the body); the body checks that the coin is valid, in particular non-negative (repair cd48538).
+//@ func (delegWithdrawRewardsTx).Validate
+//@   implements action.Tx
+//@   ensures result0 ==> len(signedTx.Signatures) == 1 && sigOK(rawBytesOf(signedTx.RawTx), mWdr(signedTx.Data).Delegator, signedTx.Signatures[0])   // C04.validate
+//@   exports len(sigs) == 1                                                                                     // C04.validated-facts
+//@   exports raw.Fee.Price.Currency == ctx.FeePool.feeOpt.FeeCurrency.Name && raw.Fee.Price.Value >= 0          // C04.validated-facts
+//@   exports has(ctx.Currencies.nameMap, "OLT") && ctx.Currencies.nameMap["OLT"].Name == mWdr(raw.Data).Amount.Currency   // C12.validated-facts
+
+//@ func (delegWithdrawRewardsTx).ProcessCheck
+//@   implements action.Tx
+//@ func (delegWithdrawRewardsTx).ProcessDeliver
+//@   implements action.Tx
+//@ func (delegWithdrawRewardsTx).ProcessFee
+//@   implements action.Tx
+
+//@ func runDeleWithdraw
+//@   requires ctxOK(ctx)                                                                                        // C18.ctx
+//@   assumes ctx.NetwkDelegators.Deleg != nil && ctx.NetwkDelegators.Rewards != nil                             // A-CTX the master store always holds its two stores (NewMasterStore); to be moved into ctxOK
+//@   requires has(ctx.Currencies.nameMap, "OLT") && ctx.Currencies.nameMap["OLT"].Name == mWdr(tx.Data).Amount.Currency   // C12.validated-facts
+//@   ensures result0 ==> mWdr(tx.Data).Amount.Value >= 0 && mWdr(tx.Data).Amount.Currency == "OLT"               // C02.sign
+//@   ensures result0 ==> ndRew(ctx.NetwkDelegators.Rewards, mWdr(tx.Data).Delegator) == old(ndRew(ctx.NetwkDelegators.Rewards, mWdr(tx.Data).Delegator)) - mWdr(tx.Data).Amount.Value   // C12.delta-reward
+//@   ensures result0 ==> old(ndRew(ctx.NetwkDelegators.Rewards, mWdr(tx.Data).Delegator)) >= mWdr(tx.Data).Amount.Value   // C12.within-accrued
+//@   ensures result0 ==> ndRewPend(ctx.NetwkDelegators.Rewards, wrap64(ctx.Header.Height + govNdMaturity(ctx.GovernanceStore)), mWdr(tx.Data).Delegator) == old(ndRewPend(ctx.NetwkDelegators.Rewards, wrap64(ctx.Header.Height + govNdMaturity(ctx.GovernanceStore)), mWdr(tx.Data).Delegator)) + mWdr(tx.Data).Amount.Value   // C12.pending-at-maturity
+//@   ensures result0 ==> ndRPendTotal(ctx.NetwkDelegators.Rewards) == old(ndRPendTotal(ctx.NetwkDelegators.Rewards)) + mWdr(tx.Data).Amount.Value   // C12.delta-pending-total
+//@   ensures result0 ==> forall k string :: ndRRaw(ctx.NetwkDelegators.Rewards)[k] < old(ndRRaw(ctx.NetwkDelegators.Rewards))[k] ==> k == ndRewBalKey(ctx.NetwkDelegators.Rewards, mWdr(tx.Data).Delegator)   // C03.only-signer-debited
+//@   ensures bal(ctx.Balances) == old(bal(ctx.Balances)) && balTotal(ctx.Balances) == old(balTotal(ctx.Balances)) && ndRaw(ctx.NetwkDelegators.Deleg) == old(ndRaw(ctx.NetwkDelegators.Deleg)) && ndActTotal(ctx.NetwkDelegators.Deleg) == old(ndActTotal(ctx.NetwkDelegators.Deleg)) && ndPendTotal(ctx.NetwkDelegators.Deleg) == old(ndPendTotal(ctx.NetwkDelegators.Deleg))   // C03.untouched
+
+// ================================================================ reinvest rewards (reinvest_rewards.go)
+
+//@ ghost func mRei(data bytes) Reinvest = unm(data, "Reinvest")
+
+//@ func (delegReinvestRewardsTx).Validate
+//@   implements action.Tx
+//@   ensures result0 ==> len(signedTx.Signatures) == 1 && sigOK(rawBytesOf(signedTx.RawTx), mRei(signedTx.Data).Delegator, signedTx.Signatures[0])   // C04.validate
+//@   exports len(sigs) == 1                                                                                     // C04.validated-facts
+//@   exports raw.Fee.Price.Currency == ctx.FeePool.feeOpt.FeeCurrency.Name && raw.Fee.Price.Value >= 0          // C04.validated-facts
+//@   exports has(ctx.Currencies.nameMap, "OLT") && ctx.Currencies.nameMap["OLT"].Name == mRei(raw.Data).Amount.Currency   // C12.validated-facts
+
+//@ func (delegReinvestRewardsTx).ProcessCheck
+//@   implements action.Tx
+//@ func (delegReinvestRewardsTx).ProcessDeliver
+//@   implements action.Tx
+//@ func (delegReinvestRewardsTx).ProcessFee
+//@   implements action.Tx
+
+//@ func runReinvest
+//@   requires ctxOK(ctx)                                                                                        // C18.ctx
+//@   assumes ctx.NetwkDelegators.Deleg != nil && ctx.NetwkDelegators.Rewards != nil                             // A-CTX the master store always holds its two stores (NewMasterStore); to be moved into ctxOK
+//@   requires has(ctx.Currencies.nameMap, "OLT") && ctx.Currencies.nameMap["OLT"].Name == mRei(tx.Data).Amount.Currency   // C12.validated-facts
+//@   ensures result0 ==> mRei(tx.Data).Amount.Value >= 0 && mRei(tx.Data).Amount.Currency == "OLT"               // C02.sign
+//@   ensures result0 ==> ndRew(ctx.NetwkDelegators.Rewards, mRei(tx.Data).Delegator) == old(ndRew(ctx.NetwkDelegators.Rewards, mRei(tx.Data).Delegator)) - mRei(tx.Data).Amount.Value   // C12.delta-reward
+//@   ensures result0 ==> old(ndRew(ctx.NetwkDelegators.Rewards, mRei(tx.Data).Delegator)) >= mRei(tx.Data).Amount.Value   // C12.within-accrued
+//@   ensures result0 ==> bal(ctx.Balances)[ndPoolKey()] == old(bal(ctx.Balances))[ndPoolKey()] + mRei(tx.Data).Amount.Value   // C12.delta-pool
+//@   ensures result0 ==> balTotal(ctx.Balances)["OLT"] == old(balTotal(ctx.Balances))["OLT"] + mRei(tx.Data).Amount.Value   // C02.reward-to-balance
+//@   ensures result0 ==> forall c string :: c != "OLT" ==> balTotal(ctx.Balances)[c] == old(balTotal(ctx.Balances))[c]   // C02.conserve
+//@   ensures result0 && old(ndOK(ctx.NetwkDelegators.Deleg)[ndActKey(ctx.NetwkDelegators.Deleg, mRei(tx.Data).Delegator)]) ==> ndActive(ctx.NetwkDelegators.Deleg, mRei(tx.Data).Delegator) == old(ndActive(ctx.NetwkDelegators.Deleg, mRei(tx.Data).Delegator)) + mRei(tx.Data).Amount.Value   // C12.delta-active
+//@   ensures result0 && old(ndOK(ctx.NetwkDelegators.Deleg)[ndActKey(ctx.NetwkDelegators.Deleg, mRei(tx.Data).Delegator)]) ==> ndActTotal(ctx.NetwkDelegators.Deleg) == old(ndActTotal(ctx.NetwkDelegators.Deleg)) + mRei(tx.Data).Amount.Value   // C12.delta-active-total
+//@   ensures result0 && old(ndOK(ctx.NetwkDelegators.Deleg)[ndActKey(ctx.NetwkDelegators.Deleg, mRei(tx.Data).Delegator)]) ==> bal(ctx.Balances)[ndPoolKey()] - ndActTotal(ctx.NetwkDelegators.Deleg) == old(bal(ctx.Balances))[ndPoolKey()] - old(ndActTotal(ctx.NetwkDelegators.Deleg))   // C12.pool-covers-active
+//@   claims result0 ==> ndActive(ctx.NetwkDelegators.Deleg, mRei(tx.Data).Delegator) == old(ndActive(ctx.NetwkDelegators.Deleg, mRei(tx.Data).Delegator)) + mRei(tx.Data).Amount.Value   // C12.delta-active-read-error-dropped
+//@   ensures result0 ==> forall k string :: ndRRaw(ctx.NetwkDelegators.Rewards)[k] < old(ndRRaw(ctx.NetwkDelegators.Rewards))[k] ==> k == ndRewBalKey(ctx.NetwkDelegators.Rewards, mRei(tx.Data).Delegator)   // C03.only-signer-debited
+//@   ensures result0 ==> forall k string :: bal(ctx.Balances)[k] >= old(bal(ctx.Balances))[k]                  // C03.no-balance-debited
+//@   ensures result0 && old(ndOK(ctx.NetwkDelegators.Deleg)[ndActKey(ctx.NetwkDelegators.Deleg, mRei(tx.Data).Delegator)]) ==> forall k string :: ndRaw(ctx.NetwkDelegators.Deleg)[k] >= old(ndRaw(ctx.NetwkDelegators.Deleg))[k]   // C03.no-delegation-record-debited
+//@   ensures ndPendTotal(ctx.NetwkDelegators.Deleg) == old(ndPendTotal(ctx.NetwkDelegators.Deleg)) && ndRPendTotal(ctx.NetwkDelegators.Rewards) == old(ndRPendTotal(ctx.NetwkDelegators.Rewards))   // C03.untouched
